@@ -384,6 +384,23 @@ def discharge(site, prov, lf, body):
                 if mode == "plus1" and bound[0] == "fld" and bound[3] == "0" and bound[1][0] == "bin" and bound[1][1] == "AddWithOverflow" \
                         and bound[1][2] == e and bound[1][3][0] == "const" and bound[1][3][2] >= 1:
                     return ("D2", "inclusive range end + 1 equals the bound of a dominating `len >= end + 1` guard")
+        # single element X[i] with a dominating guard `i < len(X)` (or the negation of `i >= len(X)`) on the same terms
+        if rng[0] != "agg" and not (rng[0] == "call" and "Range" in rng[1]):
+            for (sb, d, vals, excl) in lf.g.conds(site.bb):
+                if body.term(sb).get("dty") != "bool":
+                    continue
+                truth = (vals == [1]) if vals is not None else (excl == [0])
+                t = d
+                while t[0] == "un" and t[1] == "Not":
+                    t = t[2]
+                    truth = not truth
+                if t[0] != "bin":
+                    continue
+                op, l, r = t[1], t[2], t[3]
+                if not truth:
+                    op = {"Lt": "Ge", "Ge": "Lt", "Gt": "Le", "Le": "Gt"}.get(op)
+                if (op == "Lt" and l == rng and len_of(r) == xcoll) or (op == "Gt" and r == rng and len_of(l) == xcoll):
+                    return ("D2", "element index under a dominating `index < len` guard on the same terms")
         # [..len(X)-c] / [len(X)-c..] on X itself (the subtraction is audited as its own site)
         if rng[0] == "agg" and (rng[1].endswith("RangeTo::RangeTo") or rng[1].endswith("RangeFrom::RangeFrom")):
             e = rng[3][0]
